@@ -9,6 +9,7 @@ CONSTANTS
   ScrollOffC = 1
   InputlessC = FALSE
   Multis = {0, 3, 2147483647}
+  Tracks = {0, 1, 2}
   ActFilter = "all"
 INIT Init
 NEXT GNext
